@@ -13,6 +13,11 @@ CONSTANTS
   AllowAbort = FALSE
   ForeignRelease = FALSE
   OrderedArrival = FALSE
+  AllowPause = FALSE
+  AllowIoError = FALSE
+  AllowResume = FALSE
+  ForgetUncreated = TRUE
+  MaxInterrupts = 3
 INVARIANT TypeOK
 INVARIANT Inside
 INVARIANT RegularName
